@@ -1262,7 +1262,7 @@ def shim_path():
         tmp = so + ".%d" % os.getpid()
         with open(src, "w") as f:
             f.write(SHIM_C)
-        util.sh(["gcc", "-shared", "-fPIC", "-O1", "-o", tmp, src, "-ldl"], timeout=120)
+        util.sh(["gcc", "-shared", "-fPIC", "-O1", "-o", tmp, src, "-ldl"], timeout=600)
         os.replace(tmp, so)
         os.unlink(src)
     return so
